@@ -44,9 +44,15 @@ var standinTable = map[string][]struct{ name, file, pkgdir, test, stands, boundQ
 	}},
 	"C05": {{
 		name: "entry-round-trip", file: "c05_roundtrip_test.go.txt", pkgdir: "internal", test: "TestGovcStandinC05",
-		stands:        "Response.MarshalBinary (httputil.DumpResponse) followed by ParseResponse (http.ReadResponse) reproduces status, every header field value and the exact body bytes; the response handed to MarshalBinary still delivers its body",
-		boundQuick:    "5 statuses x 3 protocol versions x 3 framings x 4 body contents x 6 body sizes (0..4097) x 3 header shapes",
-		boundThorough: "5 statuses x 3 protocol versions x 3 framings x 4 body contents x 9 body sizes (0..1 MiB) x 3 header shapes",
+		stands:        "Response.MarshalBinary (httputil.DumpResponse) followed by ParseResponse (http.ReadResponse) reproduces status, every header field value, the exact body bytes, the entry's ID (of any length) and both timestamps; the response handed to MarshalBinary still delivers its body",
+		boundQuick:    "5 statuses x 3 protocol versions x 3 framings x 4 body contents x 6 body sizes (0..4097) x 3 header shapes; ID lengths 23..20,020 bytes and timestamps with nanoseconds in five zones vary along",
+		boundThorough: "5 statuses x 3 protocol versions x 3 framings x 4 body contents x 9 body sizes (0..1 MiB) x 3 header shapes; ID lengths 23..20,020 bytes and timestamps with nanoseconds in five zones vary along",
+	}},
+	"C09": {{
+		name: "entry-round-trip", file: "c05_roundtrip_test.go.txt", pkgdir: "internal", test: "TestGovcStandinC05",
+		stands:        "Response.MarshalBinary (httputil.DumpResponse) followed by ParseResponse (http.ReadResponse) reproduces status, every header field value, the exact body bytes, the entry's ID (of any length) and both timestamps; the response handed to MarshalBinary still delivers its body",
+		boundQuick:    "5 statuses x 3 protocol versions x 3 framings x 4 body contents x 6 body sizes (0..4097) x 3 header shapes; ID lengths 23..20,020 bytes and timestamps with nanoseconds in five zones vary along",
+		boundThorough: "5 statuses x 3 protocol versions x 3 framings x 4 body contents x 9 body sizes (0..1 MiB) x 3 header shapes; ID lengths 23..20,020 bytes and timestamps with nanoseconds in five zones vary along",
 	}},
 }
 
